@@ -197,13 +197,18 @@ bool GaussianMixture::augmentWithNoise(const Eigen::Ref<const Eigen::MatrixXd>& 
     if (noise_covariance_matrix.rows() != noise_covariance_matrix.cols())
         return false;
 
-    dim_noise = noise_covariance_matrix.rows();
-    dim += dim_noise;
-    dim_covariance += dim_noise;
+    /* Size of the covariance matrices before this augmentation
+       (it includes noise components added by previous augmentations). */
+    const std::size_t dim_old = dim_covariance;
+    const std::size_t dim_added = noise_covariance_matrix.rows();
+
+    dim_noise += dim_added;
+    dim += dim_added;
+    dim_covariance += dim_added;
 
     /* Add zero mean noise to each mean. */
     mean_.conservativeResize(dim, NoChange);
-    mean_.bottomRows(dim_noise) = MatrixXd::Zero(dim_noise, components);
+    mean_.bottomRows(dim_added) = MatrixXd::Zero(dim_added, components);
 
     /* Resize covariance matrix. */
     covariance_.conservativeResizeLike(MatrixXd::Zero(dim_covariance, dim_covariance * components));
@@ -214,7 +219,6 @@ bool GaussianMixture::augmentWithNoise(const Eigen::Ref<const Eigen::MatrixXd>& 
      i.e. in the top-left corner of the matrix covariance_,
      is already in the correct place.
     */
-    std::size_t dim_old = use_quaternion ? dim_linear + dim_circular * (dim_circular_component - 1) : dim_linear + dim_circular;
     for (std::size_t i = 0; i < (components - 1); i++)
     {
         std::size_t i_index = components - 1 - i;
@@ -234,12 +238,12 @@ bool GaussianMixture::augmentWithNoise(const Eigen::Ref<const Eigen::MatrixXd>& 
     for (std::size_t i = 0; i < components; i++)
     {
         /* Copy the noise covariance matrix in the bottom-right block of each covariance matrix. */
-        covariance_.block(dim_old, i * dim_covariance + dim_old, dim_noise, dim_noise) = noise_covariance_matrix;
+        covariance_.block(dim_old, i * dim_covariance + dim_old, dim_added, dim_added) = noise_covariance_matrix;
 
         /* Clean part of the matrix that should be zero. */
-        covariance_.block(0, i * dim_covariance + dim_old, dim_old, dim_noise) = MatrixXd::Zero(dim_old, dim_noise);
+        covariance_.block(0, i * dim_covariance + dim_old, dim_old, dim_added) = MatrixXd::Zero(dim_old, dim_added);
 
-        /* The part in covariance_.block(dim_old, i * dim_covariance, dim_noise, dim_old) was set to 0 when doing
+        /* The part in covariance_.block(dim_old, i * dim_covariance, dim_added, dim_old) was set to 0 when doing
            covariance_.conservativeResizeLike(MatrixXd::Zero(dim_covariance, dim_covariance * components));
            since it is appended in order to expand the matrix. */
     }
